@@ -227,7 +227,10 @@ func netC03(s *Sink, tier string) {
 		rounds = 10
 	}
 	calls, accepted := 0, 0
-	for round := 0; round < rounds; round++ {
+	restore := discardStdout()
+	defer func() { farmDebug = false; restore() }()
+	for round := 0; round < 2*rounds; round++ {
+		farmDebug = round%2 == 1 // every second pass with the client in debug mode
 		for path := 0; path < 3; path++ {
 			for m := 0; m < len(mangleNames); m++ {
 				nextIndex++
